@@ -9,6 +9,7 @@ import (
 	"os"
 	"reflect"
 	"strconv"
+	"strings"
 
 	v "github.com/bytedance/sonic/internal/zzverif"
 )
@@ -20,6 +21,12 @@ import (
 func VerifT3Replay() {
 	var text string
 	switch os.Getenv("VERIF_T3_KIND") {
+	case "gentable":
+		verifT3GenericTables()
+		return
+	case "gendepth":
+		verifT3GenericDepth()
+		return
 	case "double":
 		text = strconv.FormatFloat(math.Float64frombits(v.Uint64("double")), 'g', 17, 64)
 	case "integer":
@@ -81,5 +88,73 @@ func VerifT3Replay() {
 	v.Assert((e1 == nil) == (e2 == nil), fmt.Sprintf("sonic and encoding/json disagree on accepting %q into %s: sonic err=%v, encoding/json err=%v", text, os.Getenv("VERIF_T3_TYPE"), e1, e2))
 	if e1 == nil && e2 == nil {
 		v.Assert(reflect.DeepEqual(a, b), fmt.Sprintf("decoded values differ for %q", text))
+	}
+}
+
+func verifT3Decode(text string) (val interface{}, err error, pan interface{}) {
+	defer func() {
+		if r := recover(); r != nil {
+			pan = r
+		}
+	}()
+	err = ConfigStd.UnmarshalFromString(text, &val)
+	return
+}
+
+// verifT3GenericTables: a structural character must mean the same with and without white
+// space before it (the generic decoder reaches it through two different dispatch tables).
+func verifT3GenericTables() {
+	_ = v.Uint64("byte")
+	var docs []string
+	for _, t := range []string{`[1@,2]`, `{"a"@:1}`, `@[1]`, `[@[1]]`, `[1@]`, `{"a":1@}`, `@{"a":1}`, `[@{"a":1}]`, `[1@2]`, `[1@:2]`, `{"a"@,1}`, `{"a"@1}`, `[1@}`, `{"a":1@]`} {
+		for _, ws := range []string{"", " ", "    ", "     ", " \t\n\r \t\n\r ", "                                                                    "} {
+			docs = append(docs, strings.Replace(t, "@", ws, 1))
+		}
+	}
+	for _, d := range docs {
+		a, e1, pan := verifT3Decode(d)
+		v.Assert(pan == nil, fmt.Sprintf("decoding %q into interface{} panicked: %v", d, pan))
+		var b interface{}
+		e2 := json.Unmarshal([]byte(d), &b)
+		v.Assert((e1 == nil) == (e2 == nil), fmt.Sprintf("sonic and encoding/json disagree on accepting %q into interface{}: sonic err=%v, encoding/json err=%v", d, e1, e2))
+		if e1 == nil && e2 == nil {
+			v.Assert(reflect.DeepEqual(a, b), fmt.Sprintf("decoded values differ for %q", d))
+		}
+	}
+}
+
+// verifT3GenericDepth: documents nested to the depth of the counterexample (and its
+// neighbours), entered through object keys and through array elements, with one more sibling
+// in the outermost container so that the root slot is used again afterwards: no panic, and a
+// successful decode equals encoding/json's.
+func verifT3GenericDepth() {
+	_ = v.Uint64("handler")
+	d := int(v.Uint64("depth"))
+	rep := func(s string, n int) string {
+		b := make([]byte, 0, len(s)*n)
+		for i := 0; i < n; i++ {
+			b = append(b, s...)
+		}
+		return string(b)
+	}
+	for n := d; n <= d+2; n++ {
+		if n < 2 {
+			continue
+		}
+		docs := []string{
+			rep(`{"a":`, n) + `null` + rep(`}`, n-1) + `,"b":1}`,
+			`[` + rep(`{"a":`, n-1) + `null` + rep(`}`, n-1) + `,1]`,
+			rep(`[`, n) + `null` + rep(`]`, n-1) + `,1]`,
+			`{"a":` + rep(`[`, n-1) + `null` + rep(`]`, n-1) + `,"b":1}`,
+		}
+		for _, doc := range docs {
+			a, e1, pan := verifT3Decode(doc)
+			v.Assert(pan == nil, fmt.Sprintf("decoding a document nested %d deep into interface{} panicked: %v", n, pan))
+			if e1 == nil {
+				var b interface{}
+				e2 := json.Unmarshal([]byte(doc), &b)
+				v.Assert(e2 == nil && reflect.DeepEqual(a, b), fmt.Sprintf("document nested %d deep decoded to a different value than encoding/json's", n))
+			}
+		}
 	}
 }
